@@ -48,6 +48,8 @@ type zzTransport struct {
 	writesAfterClose   int
 	gate               chan struct{} // when non-nil, Write/Writev block until it is closed (stalled sender)
 	buffers            int           // buffers handed to Write/Writev so far
+	keepUnits          bool          // record the length of every non-empty buffer handed over (opt-in: it is state)
+	units              []int
 }
 
 func newZZTransport() *zzTransport {
@@ -57,6 +59,9 @@ func newZZTransport() *zzTransport {
 func (t *zzTransport) record(p []byte) {
 	t.log = append(t.log, p...)
 	t.unflushed += len(p)
+	if t.keepUnits && len(p) > 0 {
+		t.units = append(t.units, len(p))
+	}
 }
 
 func (t *zzTransport) Write(p []byte) (int, error) {
@@ -298,5 +303,7 @@ type ZZTransport = zzTransport
 func NewZZTransport() *ZZTransport { return newZZTransport() }
 func (t *zzTransport) Log() []byte  { return t.log }
 func (t *zzTransport) Closes() int  { return t.closes }
+func (t *zzTransport) KeepUnits()   { t.keepUnits = true }
+func (t *zzTransport) Units() []int { return t.units }
 func (t *zzTransport) Unflushed() int { return t.unflushed }
 func (t *zzTransport) SetReadData(b []byte, err error) { t.readData, t.readErr = b, err }
